@@ -294,6 +294,16 @@ def handle (op : String) (fs : List (String × String)) : String :=
         if !(keys.all (noOverflow subs)) then "outside:overflow"
         else if keys.all fun k => kernSpec subs k == mget got k then "ok" else "bad:value"
     | _, _, _ => "bad-case"
+  else if op == "layout.kern.big" then
+    -- D: a format 0 subtable listing n distinct pairs (pair i = (i/200, i%200+300) ↦ i%97−48) yields n
+    -- kerning values, however large n is (the 16-bit length field cannot bound nPairs: for n > 10920
+    -- it only holds 14+6n mod 65536); sampled values must be the listed ones
+    match (getField fs "n").bind String.toNat? with
+    | some n =>
+      let samples := ([0, 1, 199, 200, n / 2, 10918, 10919, 10920, 10921] ++
+        (if n ≥ 2 then [n - 2] else []) ++ (if n ≥ 1 then [n - 1] else [])).filter (· < n)
+      s!"count={n};" ++ ",".intercalate (samples.map fun i => s!"{i}:{((i % 97 : Nat) : Int) - 48}")
+    | none => "bad-case"
   else if op == "layout.kern.ximage" then
     -- independent implementation vs SPEC: the answers expected from x/image's Kern for the pairs asked
     match (getField fs "subs").bind parseSubs, (getField fs "kern").bind fromHex,
